@@ -470,6 +470,7 @@ class ParserText(ParserBase):
         try:
             value = self._parsable[self._parsed_length:]
             date_time = dateutil.parser.parse(six.ensure_text(value, self._encoding))
+            date_time.utcoffset()  # an offset of 24 hours or more is accepted by dateutil but unusable
         except (ValueError, OverflowError) as e:
             six.raise_from(InvalidValue(value, type(self), 'value'), e)
 
